@@ -367,6 +367,30 @@ _R8 = {
 }
 for _p, _t in _R8.items():
     CHECKS[_p]["text"] += _t
+# ---- round 9 additions ---------------------------------------------------------------------------------------------------
+_R9 = {
+    "C02": " The secretstream MAC covers the caller's AD length itself (R2.12 = C09's R9.5 engine).",
+    "C03": " In the portable Salsa20 family the counter bytes are updated by exactly one carry chain that every iteration of the block loop runs (R3.11).",
+    "C04": " blake2b_update compresses only under a strict `remaining > K` guard followed by `remaining -= K`: the last block is left to final (R4.11).",
+    "C05": " In fe51_pack.S the mask selecting the final subtraction of p depends on all five limbs (R5.9, E17 register dependence).",
+    "C06": " The Ed25519 -> X25519 key conversions read their input completely before the first write through the output (R6.5 = C05's R5.3 engine).",
+    "C07": " expand_message_xmd never writes its b_0 buffer inside the block loop (R7.13).",
+    "C10": " The inline-assembly fast paths of sodium_add / sodium_sub / sodium_increment form one carry chain like the byte loop: only the first "
+           "limb operation ignores the carry, no limb is updated twice (R10.10 = C14's R14.8).",
+    "C11": " Address taint follows pointer parameters: a pointer the caller computed with a secret index makes every access through it in the callee "
+           "a secret-addressed access.",
+    "C12": " Assembly fast paths reached under `len == C` touch exactly C bytes (R12.10 = C14's R14.8 extent part).",
+    "C14": " Limb structure of every inline-assembly block of sodium/utils.c, helpers included: carry-first, every limb once, widths add up to the "
+           "guarded length (R14.8); limb pairing (R14.7) over every two-operand function of the unit.",
+    "C15": " Both decoders hand back through *end the position the end-pointer-less form compares with the input length (R15.7, reaching definitions).",
+    "C16": " No 64-bit quantity of the padding arithmetic is narrowed unless the dropped bits are known zero (R16.7, E12).",
+    "C17": " MAP_FAILED never leaves _alloc_aligned as a pointer (R17.7).",
+    "C18": " The pointer to the installed source is a process-global object, not thread-local (R18.7).",
+    "C20": " A failed allocation inside a void function is a violation (nothing can report it), and an mmap result forwarded as a pointer needs the "
+           "MAP_FAILED test (R20.1-arm, R20.2).",
+}
+for _p, _t in _R9.items():
+    CHECKS[_p]["text"] += _t
 _PENDING = "not claimed"
 NOT_APPLICABLE = {
     "C01": "every clause is an equality between computed byte strings and a mathematical specification over all keys/nonces/lengths/backends: "
